@@ -31,8 +31,11 @@ THEOREMS = ['Otel.C11Mem.' + t for t in (
     # (c) stale loads of head_ / tail_ in Add
     'stale_reachable_inv', 'stale_consumed_is_log_prefix', 'stale_consumed_at_most_once', 'stale_failed_not_accepted',
     'stale_size_le_capacity', 'stale_no_empty_slot_consumed', 'stale_commit_exact', 'stale_undo_takes_own_element',
-    'stale_add_fails_only_when_seen_full_partial', 'stale_spurious_full_witness')] + [
-    'Otel.RelAcq.Spin.inv_run', 'Otel.RelAcq.Slot.inv_run', 'Otel.RingStale.reachable_inv',
+    'stale_add_fails_only_when_seen_full_partial', 'stale_spurious_full_witness',
+    # the pairs (tail, head) Add can read
+    'headtail_pairs_ordered', 'headtail_head_messages_count', 'headtail_gen_pairs_ordered',
+    'headtail_relaxed_tail_load_witness', 'headtail_relaxed_fadd_witness', 'headtail_weakened_not_ordered')] + [
+    'Otel.RelAcq.Spin.inv_run', 'Otel.RelAcq.Slot.inv_run', 'Otel.RelAcq.HT.inv_run', 'Otel.RingStale.reachable_inv',
     'Otel.RelAcq.load_le_latest', 'Otel.RelAcq.rmw_mono']
 TSAN = ['-fno-sanitize=address,undefined', '-fsanitize=thread']
 HN = 't_c11'
@@ -45,15 +48,17 @@ RULE = ('weak memory: (tsan) the unmodified spin_lock_mutex.h / atomic_unique_pt
         'release/acquire model - schedule and read choices on the line, generated orders and random weaker ones - compared '
         'with an independent Python reference; with the generated orders no execution may flag a race. non-trivial = a '
         'tsan case with at least two threads that completed, or a model execution in which at least two threads stepped')
-LEVEL_TEXT_ADD = (' Weak memory (Props/C11Mem.lean, 36 theorems): on a view-based release/acquire memory (Model/RelAcq.lean: per '
+LEVEL_TEXT_ADD = (' Weak memory (Props/C11Mem.lean, 43 theorems): on a view-based release/acquire memory (Model/RelAcq.lean: per '
                   'location a message list, per thread a view, loads may read stale messages, RMWs read the latest, plain '
                   'locations with a data-race flag) and for EVERY interleaving, EVERY read choice, any number of threads: the '
                   'spin-lock client (relaxed test load, exchange, plain read+write of a shared cell, unlocking store) never '
                   'races, keeps mutual exclusion, and every critical section reads what the previous one wrote; whoever gets a '
                   'pointer out of a ring slot by exchange (consumer, or the producer on its undo path) reads the payload '
-                  'race-free and initialised - both for all orders with exchange >= acquire, unlock / slot CAS >= release, and '
-                  'gen_orders_sufficient (decide) ties that to the orders re-extracted from the source on every run '
-                  '(Gen/MemOrder.lean, 23 atomic operations); kernel-checked executions show each weakened order racing. The '
+                  'race-free and initialised - both for all orders with exchange >= acquire, unlock / slot CAS >= release; every '
+                  'pair (tail, head) that Add reads has tail <= head (no uint64 wrap-around in the full test) when tail_ += n is '
+                  '>= release and Add\'s tail_ load >= acquire; gen_orders_sufficient (decide) ties all three to the orders '
+                  're-extracted from the source on every run (Gen/MemOrder.lean, 23 atomic operations); kernel-checked '
+                  'executions show each weakened order racing / mis-ordering. The '
                   'SC invariants of the ring survive arbitrarily stale loads of head_/tail_ in Add (Model/RingStale.lean): '
                   'safety needs nothing of them; the failure justification survives only relative to the consumption the '
                   'producer has seen (stale_spurious_full_witness). The same headers run on real threads under '
@@ -63,9 +68,10 @@ LEVEL_NOTE_ADD = (' Weak-memory sub-check: trusted = the view-based model as a r
                   'seq_cst treated as acq_rel, which only adds executions; no load-buffering / out-of-thin-air executions (RC11); '
                   'no fences / consume - the generator fails on a fence), tools/gen_c11mo.py, ThreadSanitizer of g++ 12. The '
                   'client programs are abstractions written by hand (spin: which accesses a critical section makes; slot: '
-                  'exchanges only ever write null). Not proved: that head_ >= tail_ for every pair of values Add can read under '
-                  'the generated orders (a pair with head < tail is modelled as the wrap-around failure it causes); progress '
-                  'under staleness (a producer that never sees newer values of head_/tail_ retries or reports full forever: the '
+                  'exchanges only ever write null; head/tail: one consumer thread, the slot operations between Add\'s loads and its '
+                  'head_ CAS left out). The stale-load ring model and the head/tail model are not coupled formally (the former '
+                  'over-approximates: it also admits pairs with head < tail, as the wrap-around failure they would cause). Not '
+                  'proved: progress under staleness (a producer that never sees newer values of head_/tail_ retries or reports full forever: the '
                   'C++ model only promises visibility "in a reasonable amount of time").')
 
 ORD = ('rlx', 'con', 'acq', 'rel', 'ar', 'sc')
